@@ -57,6 +57,7 @@ type FuncContract struct {
 	AllowGlobals bool      // frame: package-level state (the atomic id counter) may change
 	InlineCalls  bool      // calls to library functions are executed, not abstracted by their contracts (lemma functions)
 	ThoroughOnly bool      // checked in the thorough tier only (larger instance lemmas)
+	Bounded      string    // stated bound of an instance lemma (reported in the evidence, never counted as proved for all shapes)
 	Recurse      int       // lemma functions: a function already on the inline stack may be inlined again this many times (nested containers)
 	Unroll       int       // lemma functions: loops of inlined callees are unrolled up to this many header visits, with an unwinding obligation
 	ModReach     bool      // frame: everything reachable from the receiver may change (decoders fill owned buffers)
@@ -702,6 +703,9 @@ func (db *ContractDB) parseFile(pkg, file string) {
 				curF.Trusted = true
 			case "thoroughonly":
 				curF.ThoroughOnly = true
+			case "bounded":
+				// the lemma decides its statement only for the shape its body builds (list lengths, option counts ...)
+				curF.Bounded = rest
 			case "inline":
 				curF.InlineOnly = true
 			case "nosafety":
